@@ -2135,7 +2135,12 @@ func extractMetadataOffsets(
 			return err
 		}
 
-		// #nosec G115 -- transaction index bounded by block size, Cardano block segments are <<4GiB
+		// A key that does not fit a transaction index cannot belong to any
+		// transaction of the block: do not let it alias one by truncation.
+		if txIdx > math.MaxUint32 {
+			continue
+		}
+		// #nosec G115 -- range checked above, Cardano block segments are <<4GiB
 		result[uint32(txIdx)] = struct {
 			offset uint32
 			length uint32
